@@ -18,7 +18,7 @@ import (
 // bundle), and LintAll must not fail on it. The .j5s texts are returned so that the walker stream compares the
 // Gallina walker with the real one on them too.
 func runJ5sGen(cfg *vh.Config, res *vh.Result, caseNo *int, distinct vh.Distinct) (texts []string, how []string) {
-	n := cfg.Scale(24, 300)
+	n := cfg.Scale(14, 300)
 	type job struct {
 		texts map[string]string
 		pkgs  []string
